@@ -132,6 +132,21 @@ CHECKS = {
              'milliseconds); int and float spellings of a number map to one abstract number, so the specification cannot '
              'distinguish them.',
         ref='DESIGN.md 5 C11'),
+    'C15': dict(
+        technique='TLA+ reference model of the array / object / string library on a heap of aliased cells (BareLib: signature table, '
+                  'validation, one action per function, frame condition on failure) + TLC trace validation of real call histories '
+                  '(Trace_Core) + TLC-judged relations for regexEscape / URL encoding (Trace_LibLaw)',
+        text='A history is one script over a pool of aliased containers (alias, copy, nested reference); after every library call a '
+             'probe snapshots the result and the whole pool, so results, mutation through aliases, freshness of copies and slices '
+             'and unchanged-on-failure are observable. Histories of up to 30 calls over 42 functions with indices -2..len+2 as float '
+             'literals (also fractional), wrong-typed / missing / surplus arguments of every type, plus one-call histories per '
+             'function, are parsed and executed by the real code and validated step by step against the specification, including '
+             'documented failure values and debug-mode failure reports. regexEscape and urlEncode/urlEncodeComponent are judged '
+             'as relations (matches exactly s; percent-decoding gives back the UTF-8 of s).',
+        note='Case mapping is specified on ASCII, trim on Latin-1 whitespace (other inputs are SKIPped); Python re is the matcher '
+             'for the regexEscape clause; containers are never inserted into themselves (cyclic values are outside the model); '
+             'arrayDelete\'s return value and systemIs on equal immutable values are left unspecified.',
+        ref='DESIGN.md 5 C15'),
 }
 
 NOT_YET = 'check not built yet in this round (work in progress; see DESIGN.md section 9 build order)'
